@@ -64,6 +64,43 @@ fn programs(len: usize) -> Vec<Program> {
     out
 }
 
+thread_local! {
+    /// how the stores of a run are made: bit 0 = producer by `new` + `set_sender` instead of `with_sender`, bit 1 =
+    /// receivers by `new` + `set_receiver`, relays by `new` + `set_receiver` + `set_sender`
+    static CTOR: std::cell::Cell<u8> = const { std::cell::Cell::new(0) };
+}
+
+fn mk_producer(s: crossbeam_channel::Sender<BddNode>) -> Bdd {
+    if CTOR.with(|c| c.get()) & 1 == 1 {
+        let mut b = Bdd::new();
+        b.set_sender(s);
+        b
+    } else {
+        Bdd::with_sender(s)
+    }
+}
+
+fn mk_receiver(r: crossbeam_channel::Receiver<BddNode>) -> Bdd {
+    if CTOR.with(|c| c.get()) & 2 == 2 {
+        let mut b = Bdd::new();
+        b.set_receiver(r);
+        b
+    } else {
+        Bdd::with_receiver(r)
+    }
+}
+
+fn mk_relay(s: crossbeam_channel::Sender<BddNode>, r: crossbeam_channel::Receiver<BddNode>) -> Bdd {
+    if CTOR.with(|c| c.get()) & 2 == 2 {
+        let mut b = Bdd::new();
+        b.set_receiver(r);
+        b.set_sender(s);
+        b
+    } else {
+        Bdd::with_sender_receiver(s, r)
+    }
+}
+
 #[derive(Clone, Debug, PartialEq, Eq, PartialOrd, Ord)]
 pub struct Obs {
     found: bool,
@@ -99,7 +136,7 @@ pub fn run_schedule(p: &Program, polls: &[(usize, usize)], threaded: bool, refer
     let mut obs = vec![];
     let n_msgs = reference.len() - 2;
     let (gate_s, rr) = unbounded::<BddNode>();
-    let mut recv = Bdd::with_receiver(rr);
+    let mut recv = mk_receiver(rr);
     let mut pi = 0;
     let mut do_polls = |delivered: usize, recv: &mut Bdd, obs: &mut Vec<Obs>, out: &mut Vec<(String, String)>, pi: &mut usize| {
         while *pi < polls.len() && polls[*pi].0 == delivered {
@@ -110,8 +147,10 @@ pub fn run_schedule(p: &Program, polls: &[(usize, usize)], threaded: bool, refer
     if threaded {
         let (ps, gate_r) = bounded::<BddNode>(0);
         let prog = p.clone();
+        let ctor = CTOR.with(|c| c.get());
         let prod = std::thread::spawn(move || {
-            let mut b = Bdd::with_sender(ps);
+            CTOR.with(|c| c.set(ctor));
+            let mut b = mk_producer(ps);
             run_program(&mut b, &prog);
             b.nodes.clone()
         });
@@ -135,7 +174,7 @@ pub fn run_schedule(p: &Program, polls: &[(usize, usize)], threaded: bool, refer
         }
     } else {
         let (ps, pr) = unbounded::<BddNode>();
-        let mut b = Bdd::with_sender(ps);
+        let mut b = mk_producer(ps);
         run_program(&mut b, p);
         let msgs: Vec<BddNode> = pr.try_iter().collect();
         if msgs[..] != reference[2..] {
@@ -166,13 +205,13 @@ pub fn run_chain(p: &Program, events: &[(u8, usize)], reference: &[BddNode]) -> 
     let mut out = vec![];
     let mut obs = vec![];
     let (ps, pr) = unbounded::<BddNode>();
-    let mut b = Bdd::with_sender(ps);
+    let mut b = mk_producer(ps);
     run_program(&mut b, p);
     let msgs: Vec<BddNode> = pr.try_iter().collect();
     let (s1, r1) = unbounded::<BddNode>();
     let (s2, r2) = unbounded::<BddNode>();
-    let mut relay = Bdd::with_sender_receiver(s2, r1);
-    let mut last = Some(Bdd::with_receiver(r2));
+    let mut relay = mk_relay(s2, r1);
+    let mut last = Some(mk_receiver(r2));
     let mut delivered = 0;
     for (e, h) in events {
         match e {
@@ -316,7 +355,7 @@ struct St {
 }
 
 pub fn run_c19(run: &Run) {
-    run.set_rule("producer programs = all operation sequences up to the stated length over 3 variables that create >= 1 node (deduplicated on the produced node sequence) + the two pinned test programs; schedules = every placement of up to P receiver polls at the N+1 cut points between individual node creations x every requested handle in {0..N+3, usize::MAX}; chains producer -> relay -> end with every order of deliveries, relay polls and end polls, and with the end of the chain going away at every point (the relay must stay a correct mirror); producers whose receiver goes away at every point keep building the same table. After every poll the receiver must hold exactly a prefix of the producer's final table, 'found' iff the handle is present, never 'not found' while the message was already delivered; after draining all tables are identical. Non-trivial: schedules with >= 1 poll strictly between two node creations.");
+    run.set_rule("producer programs = all operation sequences up to the stated length over 3 variables that create >= 1 node (deduplicated on the produced node sequence) + the two pinned test programs; schedules = every placement of up to P receiver polls at the N+1 cut points between individual node creations x every requested handle in {0..N+3, usize::MAX}; chains producer -> relay -> end with every order of deliveries, relay polls and end polls, and with the end of the chain going away at every point (the relay must stay a correct mirror); producers whose receiver goes away at every point keep building the same table. The stores are made with the with_* constructors and with new + set_sender / set_receiver (all four combinations for <= 2 polls). After every poll the receiver must hold exactly a prefix of the producer's final table, 'found' iff the handle is present, never 'not found' while the message was already delivered; after draining all tables are identical. Non-trivial: schedules with >= 1 poll strictly between two node creations.");
     run.assume("crossbeam channels are FIFO; producer and receivers share nothing but the channel, so polls between message deliveries are all receiver-visible schedules; memory-level interleavings inside one channel operation are not modelled");
     let quick = run.quick();
     let mut progs = pinned();
@@ -373,20 +412,26 @@ pub fn run_c19(run: &Run) {
                     continue;
                 }
                 for s in schedules(n, np) {
-                    if run.violations_so_far() > 100 {
-                        return;
-                    }
-                    st.schedules += 1;
-                    st.polls += np as u64;
-                    if s.iter().any(|(c, _)| *c > 0 && *c < n) {
-                        st.nontrivial += 1;
-                    }
-                    match guard(|| run_schedule(p, &s, false, reference)) {
-                        Err(m) => run.violation("stream:panic", format!("{} with polls {:?} on {}", m, s, prog_json(p)), json!({"type": "stream", "program": prog_json(p), "polls": s, "threaded": false})),
-                        Ok((obs, found)) => {
-                            st.outcomes.insert(hash64(format!("{:?}", obs).as_bytes()));
-                            for (kind, msg) in found {
-                                run.violation(&kind, format!("{} with polls (cut,handle) {:?} on program {}", msg, s, prog_json(p)), json!({"type": "stream", "program": prog_json(p), "polls": s, "threaded": false}));
+                    // the four ways of making the two stores (with_* constructors / new + set_*): all of them for <= 2 polls
+                    for ctor in 0..(if np <= 2 { 4u8 } else { 1 }) {
+                        if run.violations_so_far() > 100 {
+                            return;
+                        }
+                        st.schedules += 1;
+                        st.polls += np as u64;
+                        if s.iter().any(|(c, _)| *c > 0 && *c < n) {
+                            st.nontrivial += 1;
+                        }
+                        CTOR.with(|c| c.set(ctor));
+                        let r = guard(|| run_schedule(p, &s, false, reference));
+                        CTOR.with(|c| c.set(0));
+                        match r {
+                            Err(m) => run.violation("stream:panic", format!("{} with polls {:?} on {}", m, s, prog_json(p)), json!({"type": "stream", "program": prog_json(p), "polls": s, "threaded": false, "ctor": ctor})),
+                            Ok((obs, found)) => {
+                                st.outcomes.insert(hash64(format!("{:?}", obs).as_bytes()));
+                                for (kind, msg) in found {
+                                    run.violation(&kind, format!("{} with polls (cut,handle) {:?} on program {} (stores made the way #{})", msg, s, prog_json(p), ctor), json!({"type": "stream", "program": prog_json(p), "polls": s, "threaded": false, "ctor": ctor}));
+                                }
                             }
                         }
                     }
@@ -499,14 +544,19 @@ pub fn run_c19(run: &Run) {
                             }
                         })
                         .collect();
-                    st.schedules += 1;
-                    st.polls += npolls as u64;
-                    match guard(|| run_chain(p, &events, reference)) {
-                        Err(m) => run.violation("chain:panic", m, json!({"type": "chain", "program": prog_json(p), "events": events})),
-                        Ok((obs, found)) => {
-                            st.outcomes.insert(hash64(format!("{:?}", obs).as_bytes()));
-                            for (kind, msg) in found {
-                                run.violation(&kind, format!("{} in chain schedule {:?} on program {}", msg, events, prog_json(p)), json!({"type": "chain", "program": prog_json(p), "events": events}));
+                    for ctor in [0u8, 3] {
+                        st.schedules += 1;
+                        st.polls += npolls as u64;
+                        CTOR.with(|c| c.set(ctor));
+                        let r = guard(|| run_chain(p, &events, reference));
+                        CTOR.with(|c| c.set(0));
+                        match r {
+                            Err(m) => run.violation("chain:panic", m, json!({"type": "chain", "program": prog_json(p), "events": events, "ctor": ctor})),
+                            Ok((obs, found)) => {
+                                st.outcomes.insert(hash64(format!("{:?}", obs).as_bytes()));
+                                for (kind, msg) in found {
+                                    run.violation(&kind, format!("{} in chain schedule {:?} on program {} (stores made the way #{})", msg, events, prog_json(p), ctor), json!({"type": "chain", "program": prog_json(p), "events": events, "ctor": ctor}));
+                                }
                             }
                         }
                     }
@@ -563,6 +613,7 @@ pub fn replay(c: &Value) -> Vec<(String, String)> {
     }
     let ops: Vec<Op> = c["program"].as_array().map(|a| a.iter().filter_map(op_from_json).collect()).unwrap_or_default();
     let p = Program { ops };
+    CTOR.with(|x| x.set(c["ctor"].as_u64().unwrap_or(0) as u8));
     let mut b = Bdd::new();
     run_program(&mut b, &p);
     let reference = b.nodes.clone();
